@@ -137,6 +137,8 @@ type storeFS struct {
 	openFailSkip int // (with openFailOnce) this many Opens go through first
 	// writeHook, when set, runs before every Write of a cached copy reaches the store (name, index of the write)
 	writeHook func(name string, idx int)
+	// writeLog, when set, is told every Write that reaches the store (name, bytes)
+	writeLog func(name string, p []byte)
 }
 
 func (s *storeFS) event(what string) {
@@ -203,6 +205,9 @@ func (f *storeFile) Write(p []byte) (int, error) {
 		h(f.name, f.nwrites)
 	}
 	f.nwrites++
+	if l := f.s.writeLog; l != nil {
+		l(f.name, append([]byte(nil), p...))
+	}
 	if err := f.s.tick("write " + f.name); err != nil {
 		// a failing write may have stored a part
 		if len(p) > 1 {
@@ -1435,6 +1440,13 @@ func runC11CrossNames(idBase int) {
 				held := make(chan struct{})
 				resume := make(chan struct{})
 				var once sync.Once
+				var evMu sync.Mutex
+				var events []string
+				st.writeLog = func(name string, p []byte) {
+					evMu.Lock()
+					events = append(events, cPair(cNat(map[string]int{"a": 0, "b": 1}[name]), cBytes(p)))
+					evMu.Unlock()
+				}
 				st.writeHook = func(name string, idx int) {
 					if name == "a" && idx == k {
 						once.Do(func() {
@@ -1498,6 +1510,13 @@ func runC11CrossNames(idBase int) {
 					check(fmt.Sprintf("re-open %d", round+1), "a", dataA)
 					check(fmt.Sprintf("re-open %d", round+1), "b", dataB)
 				}
+				// the Writes the cache store saw, in real-time order, replayed through the model of interleaved fills
+				// (Cache/CopyBuf.v): each continues its file with its own source's next bytes
+				evMu.Lock()
+				c.Coq = cPair(cList([]string{cPair(cNat(0), cBytes(dataA)), cPair(cNat(1), cBytes(dataB))}), cList(events))
+				evMu.Unlock()
+				c.CType, c.Check = "C11copy_case", "C11copy_check"
+				c.Trivial = false
 				emit(c)
 			}
 		}
